@@ -184,8 +184,14 @@ pub fn run(ctx: &mut Ctx) {
                         consumed = de.len().max(consumed);
                         Obs::Items(v)
                     }
-                    Op::Count => { let c = (&mut it).take(de.len() + 3).count(); consumed = de.len().max(consumed); Obs::Nat(c) }
-                    Op::Last => { let l = (&mut it).take(de.len() + 3).last(); consumed = de.len().max(consumed); match l { None => Obs::Item(None), Some(item) => Obs::Item(Some(read(item)?.unwrap_or(de.len() - 1))) } }
+                    // count() and last() consume the iterator BY VALUE, so that an override of these adaptor methods on the crate's own
+                    // iterator type is what runs (through `(&mut it).take(..)` only `next` would); an exhausted iterator is left behind
+                    Op::Count => { let mut spent = de.iter(); for _ in spent.by_ref() {} let old = std::mem::replace(&mut it, spent); let c = old.count(); consumed = de.len().max(consumed);
+                        if c > de.len() { oracle_fail.push(("iterator_yields_more_than_len".into(), format!("count() = {} on a deserializer of {} records", c, de.len()))); }
+                        Obs::Nat(c) }
+                    Op::Last => { let mut spent = de.iter(); for _ in spent.by_ref() {} let old = std::mem::replace(&mut it, spent); let l = old.last(); let was = consumed; consumed = de.len().max(consumed);
+                        if was >= de.len() && l.is_some() { oracle_fail.push(("iterator_yields_more_than_len".into(), format!("last() of an exhausted iterator ({} of {} records consumed) is Some", was, de.len()))); }
+                        match l { None => Obs::Item(None), Some(item) => Obs::Item(Some(read(item)?.unwrap_or(de.len() - 1))) } }
                     Op::Bulk => {
                         let recs = Vec::<Rec>::deserialize(mk()?).map_err(|e| e.to_string())?;
                         let mut v = vec![];
